@@ -555,7 +555,7 @@ func (db *Database) performFuzzySearch(query string, options SearchOptions) []Se
 	}
 
 	// Perform fuzzy search
-	matches := fuzzy.Find(query, targets)
+	matches := fuzzyFind(query, targets)
 
 	var results []SearchResult
 	maxMatches := utils.BufferCap(len(matches), options.Limit, 2) // Get more for better selection
@@ -587,6 +587,23 @@ func (db *Database) performFuzzySearch(query string, options SearchOptions) []Se
 	}
 
 	return results
+}
+
+// fuzzyFind runs the fuzzy matcher over targets. The matcher uses the NUL
+// character as its end-of-text marker and indexes out of range when a target
+// contains one (YAML "\0" in a custom database), so NULs are matched as spaces;
+// byte offsets and the order of targets are unchanged.
+func fuzzyFind(pattern string, targets []string) fuzzy.Matches {
+	clean, copied := targets, false
+	for i, t := range targets {
+		if strings.IndexByte(t, 0) >= 0 {
+			if !copied {
+				clean, copied = append([]string(nil), targets...), true
+			}
+			clean[i] = strings.ReplaceAll(t, "\x00", " ")
+		}
+	}
+	return fuzzy.Find(strings.ReplaceAll(pattern, "\x00", " "), clean)
 }
 
 // combineAndDeduplicateResults merges exact and fuzzy results, removing duplicates
@@ -662,7 +679,7 @@ func (db *Database) GetSuggestions(query string, maxSuggestions int) []string {
 	}
 
 	// Find fuzzy matches for the query
-	matches := fuzzy.Find(query, words)
+	matches := fuzzyFind(query, words)
 
 	var suggestions []string
 	for i, match := range matches {
